@@ -30,6 +30,12 @@ Act(sym) ==
   CASE sym = "CB" -> [op |-> "foreign", program |-> "prog.compute"]
     [] sym = "JUP" -> [op |-> "foreign", program |-> "prog.jup"]
     [] sym = "UNK" -> [op |-> "foreign", program |-> "prog.unknown"]
+    \* venue-program instructions: the whitelisted refreshes, another instruction of a venue program, and a whitelisted
+    \* refresh discriminator sent to a different (allow-listed) program
+    [] sym = "KREF" -> [op |-> "kamino_refresh", reserve |-> "KR1"]
+    [] sym = "DREF" -> [op |-> "drift_refresh", market |-> "DM1"]
+    [] sym = "KOTH" -> [op |-> "foreign", program |-> "prog.kamino", disc |-> "request_elevation_group"]
+    [] sym = "JREF" -> [op |-> "foreign", program |-> "prog.jup", disc |-> "refresh_reserve"]
     [] sym = "START3" -> [op |-> "start_liq", acct |-> "A3", receiver |-> "liquidator"]
     [] sym = "START2" -> [op |-> "start_liq", acct |-> "A2", receiver |-> "liquidator"]
     [] sym = "END3" -> [op |-> "end_liq", acct |-> "A3", receiver |-> "liquidator"]
@@ -63,7 +69,8 @@ IsEnd(sym) == sym \in {"END3", "END2", "END4"}
 SymAcct(sym) == IF sym \in {"START4", "END4", "W4", "R4"} THEN "A4" ELSE IF sym \in {"START2", "END2"} THEN "A2" ELSE "A3"
 RecvAccts == {"A3", "A4"}
 IsCpiSym(sym) == sym \in {"CSTART3", "CEND3", "CSFL2", "CEFL2"}
-IsMrgn(sym) == sym \notin {"CB", "JUP", "UNK"} /\ ~IsCpiSym(sym)
+VenueSyms == {"KREF", "DREF", "KOTH", "JREF"}
+IsMrgn(sym) == sym \notin ({"CB", "JUP", "UNK"} \cup VenueSyms) /\ ~IsCpiSym(sym)
 ProgAllowed(sym) == sym # "UNK" /\ ~IsCpiSym(sym)      \* top-level program in the receivership allow-list
 RecvInside(sym) == IsStart(sym) \/ IsEnd(sym) \/ sym \in {"INITREC", "W3", "R3", "W4", "R4"}
 
@@ -72,7 +79,7 @@ RECURSIVE FirstOk(_, _, _)
 FirstOk(L, k, seen) ==       \* validate_ix_first
   IF k > Len(L) THEN seen
   ELSE IF L[k] = "CB" THEN FirstOk(L, k + 1, seen)
-  ELSE IF ~seen THEN (IF IsStart(L[k]) THEN FirstOk(L, k + 1, TRUE) ELSE IF L[k] = "INITREC" THEN FirstOk(L, k + 1, FALSE) ELSE FALSE)
+  ELSE IF ~seen THEN (IF IsStart(L[k]) THEN FirstOk(L, k + 1, TRUE) ELSE IF L[k] \in {"INITREC", "KREF", "DREF"} THEN FirstOk(L, k + 1, FALSE) ELSE FALSE)
   ELSE IF IsStart(L[k]) THEN FALSE ELSE FirstOk(L, k + 1, TRUE)
 ValidateStart(L, i) ==
   /\ \A k \in DOMAIN L : ProgAllowed(L[k])
@@ -87,7 +94,7 @@ S0 == [ok |-> TRUE, recv |-> {}, fl2 |-> FALSE, fl3 |-> FALSE, nW |-> [a \in Rec
 Fail(s) == [s EXCEPT !.ok = FALSE]
 Step(L, i, s) ==
   LET sym == L[i] IN
-  CASE sym \in {"CB", "JUP", "UNK", "DEP1", "EFL1", "EFL1X2"} -> s
+  CASE sym \in {"CB", "JUP", "UNK", "DEP1", "EFL1", "EFL1X2"} \cup VenueSyms -> s
     [] sym = "INITREC" -> IF s.rec6 THEN Fail(s) ELSE [s EXCEPT !.rec6 = TRUE]
     [] sym \in {"START3", "START4"} ->
          LET a == SymAcct(sym) IN
@@ -128,9 +135,9 @@ ShapeOk(L) ==
     /\ (\E k \in DOMAIN L : IsStart(L[k])) =>
          LET i == CHOOSE x \in DOMAIN L : IsStart(L[x]) IN
          /\ \A k \in DOMAIN L : (IsStart(L[k]) => k = i)
-         /\ \A k \in 1..(i - 1) : L[k] \in {"CB", "INITREC"}
+         /\ \A k \in 1..(i - 1) : L[k] \in {"CB", "INITREC", "KREF", "DREF"}
          /\ L[i] \in {"START3", "START4"} /\ IsEnd(L[Len(L)]) /\ SymAcct(L[Len(L)]) = SymAcct(L[i])
-         /\ \A k \in (i + 1)..(Len(L) - 1) : L[k] \in {"CB", "JUP", "INITREC"} \/ (L[k] \in {"W3", "R3", "W4", "R4"} /\ SymAcct(L[k]) = SymAcct(L[i]))
+         /\ \A k \in (i + 1)..(Len(L) - 1) : L[k] \in ({"CB", "JUP", "INITREC"} \cup VenueSyms) \/ (L[k] \in {"W3", "R3", "W4", "R4"} /\ SymAcct(L[k]) = SymAcct(L[i]))
     /\ \A k \in DOMAIN L : IsSfl2(L[k]) => (SflIdx(L[k]) + 1 > k /\ L[SflIdx(L[k]) + 1] = "EFL2")
 
 Emit(L) ==
